@@ -71,12 +71,25 @@ func main() {
 		}
 	}
 	tree := []string{"/vb/probe_target", "tree", "3", token}
-	if strings.HasPrefix(point, "ptrace_step:") {
-		spec := strings.TrimPrefix(point, "ptrace_step:")
+	if point == "ptrace_noseccomp_running" {
+		// a traced run without a filter (the child asks to be traced right before exec): its descendants are tracees as well
+		go func() { time.Sleep(300 * time.Millisecond); announce(map[string]any{"point": point}) }()
+		fr := &forkexec.Runner{Args: []string{hx.Target(), "tree", "2", token}, Env: []string{}, Ptrace: true, WorkDir: "/"}
+		t := ptracer.Tracer{Handler: &stepper{pat: "\x00never", n: 1}, Runner: fr, Limit: runner.Limit{TimeLimit: time.Hour, MemoryLimit: 1 << 40}}
+		t.Trace(context.Background())
+		forever()
+	}
+	if strings.HasPrefix(point, "ptrace_step:") || strings.HasPrefix(point, "ptrace_step_cred:") {
+		cred := strings.HasPrefix(point, "ptrace_step_cred:")
+		spec := strings.TrimPrefix(strings.TrimPrefix(point, "ptrace_step_cred:"), "ptrace_step:")
 		i := strings.LastIndexByte(spec, '#')
 		n, _ := strconv.Atoi(spec[i+1:])
 		st := &stepper{pat: spec[:i], n: n, point: point}
 		fr := &forkexec.Runner{Args: []string{hx.Target(), "tree", "3", token}, Env: []string{}, Ptrace: true, Seccomp: hx.AllowAll().SockFprog(), WorkDir: "/"}
+		if cred {
+			// the program runs under other ids than the launcher (a change of ids clears a parent-death signal asked for earlier)
+			fr.Credential = &syscall.Credential{Uid: 65534, Gid: 65534, NoSetGroups: true}
+		}
 		t := ptracer.Tracer{Handler: st, Runner: fr, Limit: runner.Limit{TimeLimit: time.Hour, MemoryLimit: 1 << 40}}
 		t.Trace(context.Background())
 		announce(map[string]any{"err": "the tracer never reached the step " + spec})
